@@ -248,6 +248,39 @@ static bool is_localhost(const struct sockaddr_storage *addr)
 	}
 }
 
+/*
+ * Errors of accept() that only concern the connection attempt that was
+ * about to be accepted. The next pending connection can be tried at once.
+ */
+static bool accept_error_concerns_only_connection(int err)
+{
+	switch (err) {
+	case EINTR:
+	case ECONNABORTED:
+	case EPROTO:
+	case EPERM:
+	case ENETDOWN:
+	case ENOPROTOOPT:
+	case EHOSTDOWN:
+	case ENONET:
+	case EHOSTUNREACH:
+	case EOPNOTSUPP:
+	case ENETUNREACH:
+		return true;
+	default:
+		return false;
+	}
+}
+
+/*
+ * Temporary lack of resources. Accepting is retried when the listen
+ * socket is signaled the next time.
+ */
+static bool accept_error_is_resource_shortage(int err)
+{
+	return (err == EMFILE) || (err == ENFILE) || (err == ENOBUFS) || (err == ENOMEM);
+}
+
 static enum eventloop_return accept_common(struct io_event *ev, void (*peer_function)(struct io_event *ev, int fd, bool is_local_connection))
 {
 	while (1) {
@@ -257,6 +290,11 @@ static enum eventloop_return accept_common(struct io_event *ev, void (*peer_func
 		int peer_fd = accept(ev->sock, (struct sockaddr *)&addr, &addrlen);
 		if (peer_fd == -1) {
 			if ((errno == EAGAIN) || (errno == EWOULDBLOCK)) {
+				return EL_CONTINUE_LOOP;
+			} else if (accept_error_concerns_only_connection(errno)) {
+				continue;
+			} else if (accept_error_is_resource_shortage(errno)) {
+				log_err("Could not accept connection '%s'!\n", strerror(errno));
 				return EL_CONTINUE_LOOP;
 			} else {
 				return EL_ABORT_LOOP;
